@@ -26,7 +26,7 @@ ASSUMPTIONS = [
     "decomposition only uses unambiguous shapes (pairs are 2-tuples; never 2-character strings)",
     "exception parity compares raised-vs-returned; when both raise the composite's exception class must be that of some failing member (or the union's ValueError)",
 ]
-PLAN = {"quick": dict(programs=4400, values=3, depth=3), "thorough": dict(programs=33000, values=6, depth=5)}
+PLAN = {"quick": dict(programs=4500, values=3, depth=3), "thorough": dict(programs=34000, values=6, depth=5)}
 FLOORS = {"quick": {"unmarshal_nodes_compared": 70000, "marshal_nodes_compared": 70000, "exception_parity_checked": 100000, "shape_sets_compared": 30000,
                     "same_name_two_modules": 800, "builds_watched_for_warnings": 6000, "own_class_instance_sources": 20000, "reordered_sources": 15000, "revised_module_roots": 250, "generic_pair_roots": 250, "composite_key_roots": 250},
           "thorough": {"unmarshal_nodes_compared": 1200000, "marshal_nodes_compared": 1200000, "exception_parity_checked": 600000,
